@@ -79,9 +79,10 @@ func (t *Tokenizer) Parse(buf []byte, handler oj.TokenHandler) (err error) {
 			err = ojg.NewError(r)
 		}
 	}()
-	// Skip BOM if present.
-	if 3 < len(buf) && buf[0] == 0xEF {
-		if buf[1] == 0xBB && buf[2] == 0xBF {
+	// Skip BOM if present. A first byte of 0xEF that is not followed by 0xBB
+	// starts a token.
+	if 3 < len(buf) && buf[0] == 0xEF && buf[1] == 0xBB {
+		if buf[2] == 0xBF {
 			t.tokenizeBuffer(buf[3:], true)
 		} else {
 			return fmt.Errorf("expected BOM at 1:3")
